@@ -5,7 +5,8 @@
    unspecified order with an insertion-order parameter `ord`.  Determinism of the binary under
    address-space, allocator and environment perturbation is observed by the harness, not proved. *)
 From LedgerV Require Import Base.Prelude Base.Round Model.Amount Model.Xact Model.Journal
-  Proofs.AmountProofs Proofs.XactProofs Proofs.JournalProofs Proofs.OrderProofs Proofs.CompareProofs.
+  Proofs.AmountProofs Proofs.XactProofs Proofs.JournalProofs Proofs.OrderProofs Proofs.CompareProofs
+  Gen.OrderSites Proofs.OrderSitesProofs.
 From Coq Require Import Permutation.
 Local Open Scope Q_scope.
 
@@ -86,3 +87,41 @@ Example two_commodity_top_zero_now_order_free :
              mkPost [67%Z] PReal (Some (mkAmt (-5) 0 false (Some [66; 66; 66]%Z))) None None false false false] in
   finalize false (fun _ => 0%Z) None ps = finalize true (fun _ => 0%Z) None ps.
 Proof. vm_compute. reflexivity. Qed.
+
+(* ---- static tie (Gen/OrderSites.v is regenerated from /repo/src on every run by harness/translators/c19_order_sites.py):
+   every iteration over a hashed or address-ordered container of the source, with the way its order is neutralised ---- *)
+
+(* the regenerated list is, site by site and class by class, the list the lemmas of Proofs/OrderSitesProofs.v were written
+   against: a new iteration, a removed sort, a changed loop body make this fail *)
+Theorem source_order_sites_are_the_covered_ones : order_sites = covered_sites.
+Proof. exact order_sites_covered. Qed.
+Print Assumptions source_order_sites_are_the_covered_ones.
+
+(* every site is of a class whose generic order-independence statement is proved (elementwise update, commutative
+   accumulation, all/any test, unique match, sort by a value key, single entry), or is one of the sites listed by name as
+   depending on the order (Proofs/OrderSitesProofs.v: order_dependent_sites, with the findings they correspond to) *)
+Theorem source_order_sites_neutralised_or_listed :
+  forall s, In s order_sites -> neutralised (os_tag s) \/ In s order_dependent_sites.
+Proof. exact order_sites_neutralised_or_listed. Qed.
+Print Assumptions source_order_sites_neutralised_or_listed.
+
+Theorem source_has_no_unrecognised_order_site : forall s, In s order_sites -> os_tag s <> OTUnknown.
+Proof. exact no_unknown_order_site. Qed.
+Print Assumptions source_has_no_unrecognised_order_site.
+
+Theorem source_pointer_keyed_containers_have_recognised_comparators : containers_recognised = true.
+Proof. exact order_containers_recognised. Qed.
+Print Assumptions source_pointer_keyed_containers_have_recognised_comparators.
+
+(* the hypotheses of the unique-match class are satisfiable, and the class statements are not vacuous *)
+Example unique_match_example :
+  find (Z.eqb 2) [1; 2; 3]%Z = find (Z.eqb 2) [3; 2; 1]%Z.
+Proof. reflexivity. Qed.
+
+(* BALANCE < commoditized amount (value.cc is_less_than / is_greater_than, class OTAllPlainOnly): the full statement
+   "the same answer for every order of the table" fails in the faithful model - `(1 EUR + 2 USD) < 1 EUR` is `false`
+   when EUR is met first and the error "different commodities" when USD is *)
+Theorem balance_ordering_against_commoditized_amount_order_free_refuted :
+  exists b b' w, Permutation b b' /\ v_ltb (VBal b) w <> v_ltb (VBal b') w.
+Proof. exact v_ltb_balance_commoditized_order_dependent. Qed.
+Print Assumptions balance_ordering_against_commoditized_amount_order_free_refuted.
